@@ -58,7 +58,6 @@ def _op(draw, cfg):
 @st.composite
 def _case(draw, cfg):
     spec = draw(gen.model_spec(cfg))
-    gen.chain_components(spec)
     return {"spec": spec, "ops": draw(st.lists(_op(cfg), min_size=1, max_size=6))}
 
 
